@@ -2,8 +2,12 @@
    The statement as an executable predicate over (input, observation) and as a
    readable Prop.  The state of the Deferred before and after every operation is
    *observed* (by inspecting the real object), so the classification clauses do
-   not re-run any Deferred semantics; passivity is stated as "the history
-   observes the same as the history with the matches taken out". *)
+   not re-run any Deferred semantics.  Passivity is stated against a reference
+   run: the same history with every match taken out is replayed on a second fresh
+   Deferred (no matcher involved), and both runs must show the same recorded
+   callback arguments, the same final state and the same unhandled-error logging.
+   Which history the reference run must be is fixed here, from the observed
+   states ([erase_obs]), not by the harness and not by the model. *)
 From TT Require Import Lib.Base Model.Deferred Model.DeferredMatchers.
 
 Inductive input :=
@@ -14,19 +18,20 @@ Inductive input :=
 Record oobs := mkO {
   p_before : dstate; p_cbefore : bool;  (* inspected state and .called before *)
   p_out : opout;
-  p_after : dstate; p_cafter : bool
+  p_after : dstate; p_cafter : bool;
+  p_ran : nat                           (* how many recording callbacks ran during the operation *)
 }.
 Record hobs := mkH {
   h_ops : list oobs;
   h_log : log;                          (* what the recording callbacks saw *)
   h_unhandled : bool;                   (* "Unhandled error in Deferred" logged when the Deferred was collected *)
-  (* the same for the history with the matches erased *)
+  (* the reference run: which history was replayed, and what it showed *)
+  h_eops : list op;
   h_elog : log; h_efinal : dstate; h_ecalled : bool; h_eunhandled : bool
 }.
 Record sobs := mkS {
   s_direct : uret;                      (* RunTest._run_user on a function returning v / raising e *)
   s_fired : uret;                       (* SynchronousDeferredRunTest._run_user on one returning succeed(v) / fail(e) *)
-  s_unfired : uret;                     (* ... on one returning an unfired Deferred *)
   s_ev_direct : list nat;               (* result events of a whole test whose stage pos returns / raises directly, plain RunTest *)
   s_ev_fired : list nat                 (* ... returns the fired Deferred, under SynchronousDeferredRunTest *)
 }.
@@ -57,6 +62,35 @@ Definition uret_eqb (a b : uret) : bool :=
   | _, _ => false
   end.
 Definition log_eqb : log -> log -> bool := list_eqb (pair_eqb Nat.eqb dres_eqb).
+Definition cbfun_eqb (a b : cbfun) : bool :=
+  match a, b with
+  | CPass, CPass | CWait, CWait => true
+  | CConst x, CConst y | CRaise x, CRaise y | CRec x, CRec y | CRecNone x, CRecNone y => Nat.eqb x y
+  | _, _ => false
+  end.
+Fixpoint inner_eqb (a b : inner) : bool :=
+  match a, b with
+  | IAlways, IAlways | INever, INever => true
+  | IIs x, IIs y => Nat.eqb x y
+  | INot x, INot y => inner_eqb x y
+  | IBoth x1 x2, IBoth y1 y2 | IEither x1 x2, IEither y1 y2 => inner_eqb x1 y1 && inner_eqb x2 y2
+  | _, _ => false
+  end.
+Definition matcher_eqb (a b : matcher) : bool :=
+  match a, b with
+  | MNoResult, MNoResult => true
+  | MSucceeded x, MSucceeded y | MFailed x, MFailed y => inner_eqb x y
+  | _, _ => false
+  end.
+Definition op_eqb (a b : op) : bool :=
+  match a, b with
+  | OMatch x, OMatch y => matcher_eqb x y
+  | OFire x, OFire y | OFail x, OFail y => Nat.eqb x y
+  | OAdd c1 e1, OAdd c2 e2 => cbfun_eqb c1 c2 && cbfun_eqb e1 e2
+  | OExtract, OExtract | OPause, OPause | OUnpause, OUnpause => true
+  | OResume x, OResume y => dres_eqb x y
+  | _, _ => false
+  end.
 
 (* ---- the statement ---- *)
 (* which matcher matches which state; a Deferred that was fired but whose chain is paused or waits for
@@ -70,23 +104,29 @@ Definition expect_match (m : matcher) (s : dstate) : bool :=
   end.
 
 Definition is_err (s : dstate) : bool := match s with SErr _ => true | _ => false end.
+Definition is_val (s : dstate) : bool := match s with SVal _ => true | _ => false end.
 
-(* what matching may do to the Deferred: nothing to an unfired one or a success;
-   a failure looked at by succeeded()/failed() is no longer a failure afterwards *)
-Definition after_okb (m : matcher) (before after : dstate) : bool :=
-  match before, m with
-  | SErr _, MNoResult => true
-  | SErr _, _ => negb (is_err after)
-  | _, _ => dstate_eqb after before
+(* succeeded()/failed() looking at a failed Deferred *)
+Definition inspects (m : matcher) (before : dstate) : bool :=
+  match m, before with
+  | MSucceeded _, SErr _ | MFailed _, SErr _ => true
+  | _, _ => false
   end.
+
+(* what matching may do to the Deferred: a failure looked at by succeeded()/failed() is no longer a
+   failure afterwards, the Deferred then holds some plain value; in every other case the inspected
+   state is what it was *)
+Definition after_okb (m : matcher) (before after : dstate) : bool :=
+  if inspects m before then is_val after else dstate_eqb after before.
 
 Definition expect_extract (s : dstate) : res nat xexc :=
   match s with SVal v => Ok v | SErr e => Raised (XUser e) | SUnfired | SWaiting => Raised XNotFired end.
 
 Definition op_okb (o : op) (x : oobs) : bool :=
   match o with
-  | OMatch m => opout_eqb (p_out x) (OutMatch (expect_match m (p_before x)))
-                && Bool.eqb (p_cafter x) (p_cbefore x)
+  | OMatch m => opout_eqb (p_out x) (OutMatch (expect_match m (p_before x)))   (* verdict by state and inner matcher *)
+                && Bool.eqb (p_cafter x) (p_cbefore x)                          (* never fires the Deferred *)
+                && Nat.eqb (p_ran x) 0                                          (* ... nor any callback *)
                 && after_okb m (p_before x) (p_after x)
   | OExtract => opout_eqb (p_out x) (OutExtract (expect_extract (p_before x)))
   | _ => true
@@ -99,12 +139,29 @@ Fixpoint forall2b {A B} (p : A -> B -> bool) (l : list A) (m : list B) : bool :=
   | _, _ => false
   end.
 
+(* the history without its matches: a match disappears; where it consumed a failure (the Deferred
+   held failure e before and value v after) an errback returning v stands in for it *)
+Definition erase_op (o : op) (x : oobs) : list op :=
+  match o with
+  | OMatch m => if inspects m (p_before x)
+                then match p_after x with SVal v => [OAdd CPass (CConst v)] | _ => [] end
+                else []
+  | _ => [o]
+  end.
+Fixpoint erase_obs (ops : list op) (xs : list oobs) : list op :=
+  match ops, xs with
+  | o :: r, x :: s => erase_op o x ++ erase_obs r s
+  | _, _ => []
+  end.
+
 Definition final_state (xs : list oobs) : dstate := last (map p_after xs) SUnfired.
 Definition final_called (xs : list oobs) : bool := last (map p_cafter xs) false.
 
 Definition hist_okb (ops : list op) (h : hobs) : bool :=
   forall2b op_okb ops (h_ops h)
-  (* matching is invisible: same recorded values, same final state, same logging as without the matches *)
+  (* matching is invisible: callbacks added before or after see the same values, the Deferred ends in the
+     same state and logs the same at collection as in the run without the matches *)
+  && list_eqb op_eqb (h_eops h) (erase_obs ops (h_ops h))
   && log_eqb (h_log h) (h_elog h)
   && dstate_eqb (final_state (h_ops h)) (h_efinal h)
   && Bool.eqb (final_called (h_ops h)) (h_ecalled h)
@@ -115,7 +172,6 @@ Definition hist_okb (ops : list op) (h : hobs) : bool :=
 Definition sync_okb (s : nat + nat) (o : sobs) : bool :=
   uret_eqb (s_direct o) (direct_run_user s)
   && uret_eqb (s_fired o) (s_direct o)
-  && uret_eqb (s_unfired o) (URaised XNotFired)
   && list_eqb Nat.eqb (s_ev_fired o) (s_ev_direct o).
 
 Definition spec_okb (i : input) (o : obs) : bool :=
@@ -131,17 +187,15 @@ Definition Op_spec (o : op) (x : oobs) : Prop :=
   | OMatch m =>
       p_out x = OutMatch (expect_match m (p_before x))
       /\ p_cafter x = p_cbefore x
-      /\ match p_before x, m with
-         | SErr _, MNoResult => True
-         | SErr _, _ => forall e, p_after x <> SErr e
-         | _, _ => p_after x = p_before x
-         end
+      /\ p_ran x = 0
+      /\ (if inspects m (p_before x) then exists v, p_after x = SVal v else p_after x = p_before x)
   | OExtract => p_out x = OutExtract (expect_extract (p_before x))
   | _ => True
   end.
 
 Definition Hist_spec (ops : list op) (h : hobs) : Prop :=
   Forall2 Op_spec ops (h_ops h)
+  /\ h_eops h = erase_obs ops (h_ops h)
   /\ h_log h = h_elog h
   /\ final_state (h_ops h) = h_efinal h
   /\ final_called (h_ops h) = h_ecalled h
@@ -149,8 +203,7 @@ Definition Hist_spec (ops : list op) (h : hobs) : Prop :=
   /\ (h_unhandled h = true -> final_state (h_ops h) = SWaiting \/ exists e, final_state (h_ops h) = SErr e).
 
 Definition Sync_spec (s : nat + nat) (o : sobs) : Prop :=
-  s_direct o = direct_run_user s /\ s_fired o = s_direct o /\ s_unfired o = URaised XNotFired
-  /\ s_ev_fired o = s_ev_direct o.
+  s_direct o = direct_run_user s /\ s_fired o = s_direct o /\ s_ev_fired o = s_ev_direct o.
 
 Definition Spec (i : input) (o : obs) : Prop :=
   match i, o with
